@@ -222,6 +222,35 @@ def value_stage(sylt, fnd, tier):
         elif ok1 and lua1 != lua2:
             fnd.report("value:code:%s,%s" % (OPTEXT[o1], OPTEXT[o2]), "`%s` and its fully parenthesised form `%s` compile to different Lua" % (flat, full),
                        {"flat.sy": "pr: fn *X -> void : external\nstart :: fn do\n    pr(%s)\nend\n" % flat, "full.sy": "pr: fn *X -> void : external\nstart :: fn do\n    pr(%s)\nend\n" % full}, cmd="sylt --no-std -o a.lua flat.sy; sylt --no-std -o b.lua full.sy; diff a.lua b.lua")
+    # the same expressions broken over lines (before / after an operator, bare and inside brackets): a layout may be rejected, but when it
+    # is accepted its grouping is the table's - the emitted Lua equals that of the fully parenthesised one-line form
+    def comp_stmt(expr):
+        rc, lua, out = common.compile_sy(sylt, {"main.sy": "pr: fn *X -> void : external\nstart :: fn do\n    x := %s\n    pr(x)\nend\n" % expr}, extra=["--no-std"])
+        return (rc == 0 and lua is not None), lua, out
+    LAYOUTS = [("break-before-second-operator", "%(a)s %(o1)s %(b)s\n        %(o2)s %(c)s"), ("break-before-first-operator", "%(a)s\n        %(o1)s %(b)s %(o2)s %(c)s"),
+               ("break-before-both-operators", "%(a)s\n        %(o1)s %(b)s\n        %(o2)s %(c)s"), ("break-after-second-operator", "%(a)s %(o1)s %(b)s %(o2)s\n        %(c)s"),
+               ("bracketed-break-before-second-operator", "(%(a)s %(o1)s %(b)s\n        %(o2)s %(c)s)"), ("bracketed-break-after-first-operator", "(%(a)s %(o1)s\n        %(b)s %(o2)s %(c)s)")]
+    jobs = []
+    for (o1, o2, ti), (flat, full) in items:
+        if ti >= 2 and tier == "quick": continue
+        a, b, c = typings[ti]
+        for ln, lay in LAYOUTS:
+            text = lay % {"a": a, "b": b, "c": c, "o1": OPTEXT[o1], "o2": OPTEXT[o2]}
+            # outside brackets a line that starts with `-` is a statement of its own (a negation), not a continuation
+            if not ln.startswith("bracketed") and any(l.strip().startswith("-") for l in text.split("\n")[1:]): continue
+            jobs.append(((o1, o2, ti, ln), text, full))
+    with ThreadPoolExecutor(16) as tp: res2 = list(tp.map(lambda j: (j, comp_stmt(j[1]), comp_stmt(j[2])), jobs))
+    acc = 0
+    for ((o1, o2, ti, ln), broken, full), (ok1, lua1, out1), (ok2, lua2, out2) in res2:
+        n += 2
+        if ok1: acc += 1
+        if ok1 and ok2 and lua1 != lua2:
+            fnd.report("value:code-across-lines:%s:%s,%s" % (ln, OPTEXT[o1], OPTEXT[o2]), "`%s` (%s) is accepted but compiles to different Lua than its fully parenthesised form `%s`" % (broken.replace("\n", "\\n"), ln, full),
+                       {"broken.sy": "pr: fn *X -> void : external\nstart :: fn do\n    x := %s\n    pr(x)\nend\n" % broken, "full.sy": "pr: fn *X -> void : external\nstart :: fn do\n    x := %s\n    pr(x)\nend\n" % full}, cmd="sylt --no-std -o a.lua broken.sy; sylt --no-std -o b.lua full.sy; diff a.lua b.lua")
+        elif ok1 and not ok2:
+            fnd.report("value:acceptance-across-lines:%s:%s,%s" % (ln, OPTEXT[o1], OPTEXT[o2]), "`%s` (%s) is accepted but its fully parenthesised form `%s` is rejected" % (broken.replace("\n", "\\n"), ln, full),
+                       {"broken.sy": "pr: fn *X -> void : external\nstart :: fn do\n    x := %s\n    pr(x)\nend\n" % broken}, cmd="sylt --no-std -o a.lua broken.sy")
+    if acc == 0: raise common.Inconclusive("no multi-line layout of an operator expression is accepted (the bracketed ones are expected to be): the across-lines stage is vacuous")
     return n
 
 
